@@ -160,7 +160,7 @@ def check(case):
     if not faults:
         res.label("fault-not-placeable")
         return res
-    if any(e == "skip" for _k, e in faults):
+    if any(e in ("skip", "skip_mark") for _k, e in faults):
         # run-time exclusion by a before-hook (element.skip()): no hook error at all; hooks are
         # not called for the skipped elements below it, the after-hooks of the element still run
         prog["hook_faults"] = faults
@@ -179,6 +179,10 @@ def check(case):
         if ref.skipped_by_hook:
             res.label("skip-in-hook:" + sorted(ref.skipped_by_hook)[0][0])
             res.nontrivial = True
+        if len(faults) > 1:
+            res.label("raise-then-skip")
+        if any(e == "skip_mark" for _k, e in faults):
+            res.label("skip-via-mark_skipped")
         return res
     prog["hook_faults"] = faults
     ref = refmodel.simulate(prog)
@@ -353,7 +357,14 @@ def explore(rec):
                 rec.record({"program": prog, "faults": [[k, e]]}, sub="every-hook-call")
         for k in range(n):
             if base_ref.hooks[k][0] in ("before_feature", "before_rule", "before_scenario"):
-                rec.record({"program": prog, "faults": [[k, "skip"]]}, sub="skip-in-before-hook")
+                rec.record({"program": prog, "faults": [[k, "skip" if counter["n"] % 3 else "skip_mark"]]},
+                           sub="skip-in-before-hook")
+                if n <= 14:
+                    # an earlier hook raises AND the element is excluded at run time afterwards
+                    for k1 in range(k):
+                        rec.record({"program": prog, "faults": [[k1, "Exception"],
+                                                               [k, "skip" if (k1 + counter["n"]) % 2 else "skip_mark"]]},
+                                   sub="raise-then-skip(|H|<=14)")
         if n <= 14:
             for k1 in range(n):
                 for k2 in range(k1 + 1, n):
@@ -377,7 +388,7 @@ def required_labels(tier):
                                     "before_tag", "after_tag"]] + ["faults:2", "stop", "AssertionError", "fault-free",
                                                                      "dry-run", "skip-in-hook:feature",
                                                                      "skip-in-hook:rule", "skip-in-hook:scenario",
-                                                                     "fault-in-@capture-decorated-hook", "exception-without-message"]
+                                                                     "fault-in-@capture-decorated-hook", "exception-without-message", "raise-then-skip", "skip-via-mark_skipped"]
 
 
 KNOWN_PREDICATES = {}
